@@ -165,7 +165,8 @@ Definition under (e : entry) (b : list member) : outcome :=
 Lemma accept_under : forall e raw tr ms vb, accept e (TObj raw tr) = RStored ms vb -> under e (dedupe raw) = OStored ms.
 Proof.
   intros e raw tr ms vb H. destruct e; cbn [accept under] in *; try discriminate;
-    try (destruct tr; [discriminate|]); apply lift_stored in H as [H _]; exact H.
+    try (destruct tr; [discriminate|]); try (destruct (import_guard raw); [discriminate|]);
+    apply lift_stored in H as [H _]; exact H.
 Qed.
 
 Lemma under_rejects : forall e b m, NoDup (map mkey b) -> In m b ->
@@ -217,6 +218,7 @@ Lemma accept_verbatim : forall e raw tr ms, accept e (TObj raw tr) = RStored ms 
   e = EBlip \/ e = EImport \/ e = EImportFeed.
 Proof.
   intros e raw tr ms H. destruct e; cbn [accept] in H; try discriminate; try (destruct tr; [discriminate|]);
+    try (destruct (import_guard raw); [discriminate|]);
     try (apply lift_stored in H as [_ H]; discriminate); tauto.
 Qed.
 
@@ -433,6 +435,7 @@ Proof.
   - destruct e; discriminate.
   - destruct e; discriminate.
   - destruct e; cbn [accept] in H; try discriminate; try (destruct tr; [discriminate|]);
+      try (destruct (import_guard raw); [discriminate|]);
       match type of H with lift _ ?o = _ => destruct o; discriminate end.
 Qed.
 
@@ -494,4 +497,4 @@ Qed.
 
 (* ================= the switches ================= *)
 Theorem accept_gen_repaired : forall e t, accept_gen repaired e t = accept e t.
-Proof. intros e t. destruct e, t as [| | |raw tr]; try reflexivity; destruct tr; reflexivity. Qed.
+Proof. intros e t. destruct e, t as [| | |raw tr]; try reflexivity; destruct tr; try reflexivity; destruct (import_guard raw); reflexivity. Qed.
